@@ -272,7 +272,22 @@ pub fn run(case: &Val) -> Val {
                 return Ok(());
             }
             if st.fail_at == Some(k) {
-                return Err(io::Error::new(io::ErrorKind::Other, "injected rotation fault"));
+                // what KIND of error the step fails with is not part of a case: by turn one of the kinds a
+                // rename / copy / create can return (NotFound and Interrupted - which some callers tolerate or
+                // retry - included); the rotation fails all the same
+                static TURN: std::sync::atomic::AtomicUsize = std::sync::atomic::AtomicUsize::new(0);
+                const KINDS: [io::ErrorKind; 8] = [
+                    io::ErrorKind::Other,
+                    io::ErrorKind::NotFound,
+                    io::ErrorKind::PermissionDenied,
+                    io::ErrorKind::Interrupted,
+                    io::ErrorKind::AlreadyExists,
+                    io::ErrorKind::WouldBlock,
+                    io::ErrorKind::InvalidInput,
+                    io::ErrorKind::TimedOut,
+                ];
+                let kind = KINDS[TURN.fetch_add(1, std::sync::atomic::Ordering::SeqCst) % KINDS.len()];
+                return Err(io::Error::new(kind, "injected rotation fault"));
             }
             if st.block_at == Some(k) {
                 // the step's destination becomes a non-empty directory: the rename (and move_file's
